@@ -131,6 +131,15 @@ def gen_grid(rng, tier):
             ixw = [rng.randint(-nx[i], 2 * nx[i] - 1) if per[i] else rng.randint(0, nx[i] - 1) for i in range(nd)]
             lines.append("g.wrap " + " ".join(map(str, ixw)))
         lines.append("g.enum")
+        # grid files: fill, write in every form, read back into a fresh grid
+        npts = 1
+        for n_ in nx:
+            npts *= n_
+        data = [rng.choice([0.0, 1.0, rng.uniform(-5, 5), rng.uniform(-1e-3, 1e-3), rng.uniform(-1e6, 1e6)]) for _ in range(npts * mult)]
+        if mult == 1:          # (the scalar grid class reads and writes one value per point)
+            lines.append("g.fill " + " ".join(map(fbits, data)))
+            for kind in ["multicol", "raw", "restart", "rawbin", "restartbin"]:
+                lines.append("g.rt " + kind)
         # init_from_boundaries
         l0 = rng.dyadic(-4, 4, 2); w0 = rng.choice([0.25, 0.5, 1.0, 0.1, 0.3, rng.uniform(0.1, 1.0)])
         hi = l0 + rng.randint(1, 12) * w0 + rng.choice([0.0, 0.0, 0.3 * w0, -0.2 * w0])
@@ -217,6 +226,31 @@ def oracle(case, out):
             lo = [bits_to_f(x) for x in t[3 + nd:3 + 2 * nd]]
             w = [bits_to_f(x) for x in t[3 + 2 * nd:3 + 3 * nd]]
             g = (mult, nd, nx, lo, w)
+        elif t[0] == "g.fill" and g:
+            gdata = [bits_to_f(x) for x in t[1:]]
+            gper = None
+            tn = L[[i for i, l in enumerate(L) if l.startswith("g.new")][-1]].split() if False else None
+        elif t[0] == "g.rt" and g:
+            ok = vals(out, idx, "ok")
+            if ok is None:
+                viol.append("no result for the %s round trip" % t[1]); continue
+            if ok[0] != 1:
+                viol.append("a grid written in %s form could not be read back" % t[1]); continue
+            rnx = vals(out, idx, "nx"); rlo = vals(out, idx, "lo"); rw = vals(out, idx, "w"); rdata = vals(out, idx, "data")
+            if rnx != g[2]:
+                viol.append("%s round trip: sizes %r became %r" % (t[1], g[2], rnx)); continue
+            text = not t[1].endswith("bin")
+            tol = (lambda a, b: abs(a - b) <= 1e-12 * max(1.0, abs(a))) if text else (lambda a, b: a == b)
+            if len(rlo) != len(g[3]) or not all(tol(a, b) for a, b in zip(rlo, g[3])) or not all(tol(a, b) for a, b in zip(rw, g[4])):
+                viol.append("%s round trip: boundaries / widths %r %r became %r %r" % (t[1], g[3], g[4], rlo, rw)); continue
+            if len(rdata) != len(gdata) or not all((abs(a - b) <= 2e-14 * abs(b) + 1e-300) if (text and t[1] == "multicol") else tol(a, b) for a, b in zip(rdata, gdata)):
+                bad = next((i for i, (a, b) in enumerate(zip(rdata, gdata)) if a != b), None)
+                viol.append("%s round trip: data changed (entry %s: %r -> %r)" % (t[1], bad, gdata[bad] if bad is not None else None, rdata[bad] if bad is not None else None)); continue
+            if t[1] == "multicol":
+                gp = [int(x) for x in L[[i for i, l in enumerate(L[:idx]) if l.startswith("g.new")][-1]].split()[3 + 3 * g[1]:3 + 4 * g[1]]]
+                rper = vals(out, idx, "per")
+                if rper != gp:
+                    viol.append("multicol round trip: periodicity flags %r became %r" % (gp, rper))
         elif t[0] == "g.bin" and g:
             i = int(t[1]); x = bits_to_f(t[2])
             b = vals(out, idx, "bin")
